@@ -8,7 +8,8 @@ For every function / method the scan records, syntactically and conservatively,
     `out=` keyword, whose target is a parameter or a local name that may alias one (bound from the parameter itself,
     `np.asarray/np.asanyarray/np.ravel/np.reshape/np.squeeze/np.atleast_*` of it, a slice/index/attribute of it, or a
     conditional expression with such a branch),
-  * module-level names it rebinds (`global`).
+  * module-level names it rebinds (`global`),
+  * memoising decorators (`cached_property`, `lru_cache`, `cache`, ...), recorded as the pseudo attribute `<memo:name>`.
 The result is `gen/Effects.v`: `effects : list (string * list string * list string)`; `props/C17.v` states what it must be."""
 import ast
 import os
@@ -16,6 +17,7 @@ import sys
 
 FILES = ["_base.py", "_grid.py", "_solver.py", "_io.py", "_helpers.py"]
 ALIASING_CALLS = {"asarray", "asanyarray", "ravel", "reshape", "squeeze", "atleast_1d", "atleast_2d", "atleast_3d", "transpose"}
+MEMO_DECORATORS = {"cached_property", "lru_cache", "cache", "cachedmethod", "cached", "memoize"}
 MUTATING_METHODS = {"sort", "fill", "resize", "put", "itemset", "setfield", "partition", "setflags"}
 
 
@@ -94,6 +96,12 @@ def scan_function(fn):
                     kind, nm = base_name(kw.value)
                     if kind == "self":
                         self_attrs.add(nm)
+    # memoising decorators store the result on the instance / in a module-level cache: a hidden write
+    for dec in fn.decorator_list:
+        d_ = dec.func if isinstance(dec, ast.Call) else dec
+        nm = d_.attr if isinstance(d_, ast.Attribute) else (d_.id if isinstance(d_, ast.Name) else "")
+        if nm in MEMO_DECORATORS:
+            self_attrs.add("<memo:" + fn.name + ">")
     return sorted(self_attrs), sorted(mutated), sorted(globs)
 
 
